@@ -65,6 +65,7 @@ func Ask(ctx context.Context, to *PID, message any, timeout time.Duration) (resp
 	receiveContext := toReceiveContext(ctx, from, to, message, false)
 
 	responseCh := receiveContext.response
+	responseGuard := receiveContext.responseClosed
 	to.doReceive(receiveContext)
 	timer := timers.Get(timeout)
 
@@ -73,23 +74,32 @@ func Ask(ctx context.Context, to *PID, message any, timeout time.Duration) (resp
 	select {
 	case response = <-responseCh:
 		timers.Put(timer)
-		receiveContext.responseClosed.Store(true)
 		putResponseChannel(responseCh)
 		return
 	case <-ctx.Done():
+		timers.Put(timer)
+		if !responseGuard.CompareAndSwap(false, true) {
+			// the responder won the guard before the caller gave up: its reply is
+			// in the channel or about to be; deliver it instead of losing it
+			reply := <-responseCh
+			putResponseChannel(responseCh)
+			return reply, nil
+		}
 		err = errors.Join(ctx.Err(), gerrors.ErrRequestTimeout)
 		to.handleReceivedErrorWithMessage(noSender, message, err)
-		timers.Put(timer)
-		receiveContext.responseClosed.Store(true)
 		putResponseChannel(responseCh)
 		return nil, err
 	case <-timer.C:
+		timers.Put(timer)
+		if !responseGuard.CompareAndSwap(false, true) {
+			reply := <-responseCh
+			putResponseChannel(responseCh)
+			return reply, nil
+		}
 		err = gerrors.ErrRequestTimeout
 		to.handleReceivedErrorWithMessage(noSender, message, err)
-		timers.Put(timer)
-		receiveContext.responseClosed.Store(true)
 		putResponseChannel(responseCh)
-		return
+		return nil, err
 	}
 }
 
